@@ -289,6 +289,23 @@ func ruleCDC9(w *World, r *Report) {
 			}
 		}
 	}
+	// every stored edge is re-emitted: the function that writes GLINK (the edge-iteration callback) has no way out
+	// that skips the emission — compaction replaces the log and retires the snapshot, so an edge it leaves out is gone
+	for _, f := range append([]*ssa.Function{w.SSAFunc(rw.Obj)}, closuresOf(w.SSAFunc(rw.Obj))...) {
+		isGlink := func(in ssa.Instruction) bool {
+			c, ok := in.(*ssa.Call)
+			if !ok || calleeObj(&c.Call) != fc {
+				return false
+			}
+			nm, _ := constString(c.Call.Args[0])
+			return nm == "GLINK"
+		}
+		if len(findInstrs(f, isGlink)) == 0 || f.Parent() == nil {
+			continue
+		}
+		found, wit := pathQuery{fn: f, target: isReturn, avoid: isGlink}.find(entryPos(f))
+		r.Cond(!found, "CDC-9", "RewriteAOF:every-edge-re-emitted", w.Pos(f.Pos()), "the edge callback always reaches the GLINK emission", "the compaction's edge callback can return without emitting GLINK for the edge it was given (an early return on some property of the edge or of its namespace): compaction replaces the log and removes the snapshot, so every edge skipped here is lost at the next restart", w.witness(wit)...)
+	}
 	r.Cond(names["GLINK"] && names["GUNLINK"], "CDC-9", "RewriteAOF:re-emits-edge-history", w.Pos(rw.Decl.Pos()), "compaction writes GLINK and GUNLINK (soft-deleted history)", "compaction no longer re-emits GUNLINK for soft-deleted edges: history is lost / deleted edges come back after compaction+restart")
 }
 
@@ -359,240 +376,10 @@ func ruleSIB4(w *World, r *Report) {
 	r.Cond(schedules, "SIB-4", "VGetConnections:self-repair", w.Pos(gc.Decl.Pos()), "dead link targets are unlinked", "VGetConnections no longer unlinks targets that hydration did not return: dead links stay visible to graph queries")
 }
 
-// ---------- GRD-bfs (C11, C20) ----------
-
-// bfsSpec: a traversal function, the name of its work list and of its visited set.
-type bfsSpec struct {
-	pkg, fn string
-	fifo    bool // single queue consumed with q[0] / q[1:]
-}
-
-func ruleGRDbfs(w *World, r *Report, specs []bfsSpec, rule string) {
-	r.Doc(rule, "every traversal enqueues a node only under a not-visited test that also marks it, skips expansion at depth >= max depth, clamps the depth before the loop, and consumes its work list first-in-first-out (breadth first: a node's recorded depth is its true distance)", 4)
-	for _, sp := range specs {
-		fi := w.Func(sp.pkg, sp.fn)
-		if fi == nil {
-			r.Und(rule, "anchor:"+sp.fn, "", "anchor lost")
-			continue
-		}
-		info := fi.Pkg.TypesInfo
-		name := shortName(fi.Obj)
-		// work lists: slice variables that are appended to inside a loop
-		type enq struct {
-			call    *ast.CallExpr
-			guarded bool
-			marks   bool
-		}
-		var enqs []enq
-		var stack []ast.Node
-		ast.Inspect(fi.Decl.Body, func(n ast.Node) bool {
-			if n == nil {
-				stack = stack[:len(stack)-1]
-				return true
-			}
-			stack = append(stack, n)
-			call, ok := n.(*ast.CallExpr)
-			if !ok {
-				return true
-			}
-			id, ok := call.Fun.(*ast.Ident)
-			if !ok || id.Name != "append" || len(call.Args) < 2 {
-				return true
-			}
-			dst, ok := call.Args[0].(*ast.Ident)
-			if !ok || !strings.Contains(strings.ToLower(dst.Name), "queue") {
-				return true
-			}
-			// nearest enclosing if whose condition is a negated lookup in a map named *visited*/*seen*
-			e := enq{call: call}
-			for i := len(stack) - 2; i >= 0; i-- {
-				ifs, ok := stack[i].(*ast.IfStmt)
-				if !ok {
-					if _, isLoop := stack[i].(*ast.RangeStmt); isLoop {
-						break
-					}
-					if _, isLoop := stack[i].(*ast.ForStmt); isLoop {
-						break
-					}
-					continue
-				}
-				if isNotVisitedCond(info, ifs) {
-					e.guarded = true
-					// marking inside the same if body
-					ast.Inspect(ifs.Body, func(m ast.Node) bool {
-						if as, ok := m.(*ast.AssignStmt); ok && len(as.Lhs) == 1 {
-							if ix, ok := as.Lhs[0].(*ast.IndexExpr); ok && isVisitedMap(info, ix.X) {
-								e.marks = true
-							}
-						}
-						return true
-					})
-					break
-				}
-			}
-			enqs = append(enqs, e)
-			return true
-		})
-		if len(enqs) == 0 {
-			r.Und(rule, name+":enqueue", w.Pos(fi.Decl.Pos()), "no append to a work list named *queue* found")
-			continue
-		}
-		for i, e := range enqs {
-			r.Cond(e.guarded && e.marks, rule, fmt.Sprintf("%s:enqueue#%d:visited-guard", name, i+1), w.Pos(e.call.Pos()), "enqueue is guarded by a not-visited test that marks the node",
-				name+" enqueues a node without a not-visited test that also marks it: a cycle or self-loop makes the traversal run until its caps (or forever)")
-		}
-		// depth cut and clamp
-		if sp.fifo {
-			cut, clamp, head, tail := false, false, false, false
-			ast.Inspect(fi.Decl.Body, func(n ast.Node) bool {
-				switch x := n.(type) {
-				case *ast.IfStmt:
-					if be, ok := x.Cond.(*ast.BinaryExpr); ok {
-						l, r2 := exprString(be.X), exprString(be.Y)
-						if (be.Op == token.GEQ || be.Op == token.GTR) && strings.HasSuffix(l, ".depth") && strings.Contains(strings.ToLower(r2), "maxdepth") {
-							if be.Op == token.GEQ && bodyIsContinue(x.Body) {
-								cut = true
-							}
-						}
-						if be.Op == token.GTR && strings.Contains(strings.ToLower(l), "maxdepth") {
-							if tv := info.Types[be.Y]; tv.Value != nil {
-								if v, ok := constant.Int64Val(tv.Value); ok && v <= 5 {
-									clamp = true
-								}
-							}
-						}
-					}
-				case *ast.IndexExpr:
-					if id, ok := x.X.(*ast.Ident); ok && strings.Contains(strings.ToLower(id.Name), "queue") {
-						if tv := info.Types[x.Index]; tv.Value != nil && constant.Sign(tv.Value) == 0 {
-							head = true
-						}
-					}
-				case *ast.SliceExpr:
-					if id, ok := x.X.(*ast.Ident); ok && strings.Contains(strings.ToLower(id.Name), "queue") {
-						if x.Low != nil && x.High == nil {
-							if tv := info.Types[x.Low]; tv.Value != nil {
-								if v, ok := constant.Int64Val(tv.Value); ok && v == 1 {
-									tail = true
-								}
-							}
-						}
-					}
-				}
-				return true
-			})
-			r.Cond(cut, rule, name+":depth-cut", w.Pos(fi.Decl.Pos()), "expansion is skipped at depth >= maxDepth", name+" no longer skips expansion at `depth >= maxDepth`: the traversal goes deeper than the requested limit")
-			r.Cond(clamp, rule, name+":depth-clamp", w.Pos(fi.Decl.Pos()), "maxDepth is clamped to <= 5", name+" no longer clamps the requested depth (<= 5): a large depth makes the traversal unbounded in practice")
-			r.Cond(head && tail, rule, name+":fifo", w.Pos(fi.Decl.Pos()), "work list is consumed at the head (queue[0], queue[1:])", name+" does not consume its work list first-in-first-out: with visited-on-discovery a depth-first order records too large a depth for nodes first reached over a longer route, so nodes within the limit are cut off")
-		}
-	}
-}
-
-func exprString(e ast.Expr) string { return types.ExprString(e) }
-
-func bodyIsContinue(b *ast.BlockStmt) bool {
-	if len(b.List) != 1 {
-		return false
-	}
-	bs, ok := b.List[0].(*ast.BranchStmt)
-	return ok && bs.Tok == token.CONTINUE
-}
-
-func isVisitedMap(info *types.Info, e ast.Expr) bool {
-	id, ok := ast.Unparen(e).(*ast.Ident)
-	if !ok {
-		return false
-	}
-	if _, isMap := info.TypeOf(id).Underlying().(*types.Map); !isMap {
-		return false
-	}
-	n := strings.ToLower(id.Name)
-	return strings.Contains(n, "visited") || strings.Contains(n, "seen")
-}
-
-// isNotVisitedCond: `if !visited[x]` or `if _, seen := visited[x]; !seen`.
-func isNotVisitedCond(info *types.Info, ifs *ast.IfStmt) bool {
-	u, ok := ast.Unparen(ifs.Cond).(*ast.UnaryExpr)
-	if !ok || u.Op != token.NOT {
-		return false
-	}
-	if ix, ok := ast.Unparen(u.X).(*ast.IndexExpr); ok && isVisitedMap(info, ix.X) {
-		return true
-	}
-	if id, ok := ast.Unparen(u.X).(*ast.Ident); ok && ifs.Init != nil {
-		if as, ok := ifs.Init.(*ast.AssignStmt); ok && len(as.Lhs) == 2 && len(as.Rhs) == 1 {
-			if okId, ok := as.Lhs[1].(*ast.Ident); ok && okId.Name == id.Name {
-				if ix, ok := as.Rhs[0].(*ast.IndexExpr); ok && isVisitedMap(info, ix.X) {
-					return true
-				}
-			}
-		}
-	}
-	return false
-}
-
 // ruleGRDpath: FindPath's meeting test and traversePath's recursion guard.
 func ruleGRDpath(w *World, r *Report) {
 	r.Doc("GRD-path", "FindPath tests for a meeting only on the frontier node being expanded (never on a freshly discovered neighbour, which would return a longer-than-shortest path) and bounds its rounds by maxDepth; traversePath recurses with depth+1 and returns beyond its constant cap", 4)
-	fp := w.Func("pkg/engine", "Engine.FindPath")
-	if fp == nil {
-		r.Und("GRD-path", "anchor:FindPath", "", "anchor lost")
-	} else {
-		info := fp.Pkg.TypesInfo
-		// every assignment to the meeting variable takes the loop variable of a range over a *Queue frontier
-		n, bad := 0, 0
-		var badPos token.Pos
-		var loopVars = map[types.Object]bool{}
-		ast.Inspect(fp.Decl.Body, func(m ast.Node) bool {
-			if rs, ok := m.(*ast.RangeStmt); ok {
-				if id, ok := rs.X.(*ast.Ident); ok && strings.Contains(strings.ToLower(id.Name), "queue") {
-					if v, ok := rs.Value.(*ast.Ident); ok {
-						loopVars[info.Defs[v]] = true
-					}
-				}
-			}
-			return true
-		})
-		ast.Inspect(fp.Decl.Body, func(m ast.Node) bool {
-			as, ok := m.(*ast.AssignStmt)
-			if !ok || len(as.Lhs) != 1 {
-				return true
-			}
-			l, ok := as.Lhs[0].(*ast.Ident)
-			if !ok || !strings.Contains(strings.ToLower(l.Name), "meeting") {
-				return true
-			}
-			n++
-			rid, ok := as.Rhs[0].(*ast.Ident)
-			if !ok || !loopVars[info.Uses[rid]] {
-				bad++
-				badPos = as.Pos()
-			}
-			return true
-		})
-		if n == 0 {
-			r.Und("GRD-path", "FindPath:meeting-test", w.Pos(fp.Decl.Pos()), "cannot find the meeting-node assignment (algorithm restructured)")
-		} else {
-			r.Cond(bad == 0, "GRD-path", "FindPath:meeting-on-frontier-node", w.Pos(badPos), "meeting node is always the frontier node being expanded",
-				"FindPath declares a meeting on a node that is not the frontier node being expanded (a freshly discovered neighbour): with alternating level expansion this can return a path one hop longer than the shortest one")
-		}
-		// rounds bounded by maxDepth with default when <= 0
-		bounded, dflt := false, false
-		ast.Inspect(fp.Decl.Body, func(m ast.Node) bool {
-			switch x := m.(type) {
-			case *ast.ForStmt:
-				if be, ok := x.Cond.(*ast.BinaryExpr); ok && be.Op == token.LSS && strings.Contains(strings.ToLower(exprString(be.Y)), "maxdepth") {
-					bounded = true
-				}
-			case *ast.IfStmt:
-				if be, ok := x.Cond.(*ast.BinaryExpr); ok && be.Op == token.LEQ && strings.Contains(strings.ToLower(exprString(be.X)), "maxdepth") {
-					dflt = true
-				}
-			}
-			return true
-		})
-		r.Cond(bounded && dflt, "GRD-path", "FindPath:rounds-bounded", w.Pos(fp.Decl.Pos()), "expansion rounds are bounded by maxDepth (defaulted when <= 0)", "FindPath's expansion loop is no longer bounded by maxDepth")
-	}
+	ruleGRDpathFind(w, r)
 	tp := w.Func("pkg/engine", "Engine.traversePath")
 	if tp == nil {
 		r.Und("GRD-path", "anchor:traversePath", "", "anchor lost")
@@ -630,71 +417,12 @@ func ruleGRDpath(w *World, r *Report) {
 	r.Cond(guard, "GRD-path", "traversePath:depth-cap", w.Pos(tp.Decl.Pos()), "returns beyond a constant depth cap", "traversePath has no constant depth cap any more")
 }
 
-// ruleGRDtime: a time-travel query reads every edge as of the queried time.
-func ruleGRDtime(w *World, r *Report) {
-	r.Doc("GRD-time", "in every engine function that takes the query time (a parameter named atTime), each call that reads a node's neighbourhood (edges, incoming, relations, connections) is given that parameter: forward and backward frontier, outgoing and incoming view all look at the same moment", 4)
-	n := 0
-	for _, fi := range w.ModuleFuncs() {
-		if relPkg(fi.Obj) != "pkg/engine" {
-			continue
-		}
-		fn := w.SSAFunc(fi.Obj)
-		if fn == nil {
-			continue
-		}
-		var at *ssa.Parameter
-		for _, p := range fn.Params {
-			if p.Name() == "atTime" && basicKind(p.Type()) == types.Int64 {
-				at = p
-			}
-		}
-		if at == nil {
-			continue
-		}
-		derives := func(v ssa.Value) bool {
-			for _, leaf := range phiLeaves(capValue(v)) {
-				if leaf == ssa.Value(at) || capValue(leaf) == ssa.Value(at) {
-					return true
-				}
-			}
-			return false
-		}
-		per := 0
-		for _, f := range append([]*ssa.Function{fn}, closuresOf(fn)...) {
-			for _, b := range f.Blocks {
-				for _, in := range b.Instrs {
-					c, ok := in.(*ssa.Call)
-					if !ok {
-						continue
-					}
-					g := c.Call.StaticCallee()
-					if g == nil || !inModule(g) {
-						continue
-					}
-					nm := g.Name()
-					reads := false
-					for _, kw := range []string{"Edges", "Incoming", "Relations", "Rels", "Connections", "Links", "Neighbors", "Neighbours"} {
-						if strings.Contains(nm, kw) {
-							reads = true
-						}
-					}
-					if !reads || strings.HasPrefix(nm, "Set") || strings.HasPrefix(nm, "Add") || strings.HasPrefix(nm, "Remove") {
-						continue
-					}
-					per++
-					n++
-					has := false
-					for _, a := range c.Call.Args {
-						if basicKind(a.Type()) == types.Int64 && derives(a) {
-							has = true
-						}
-					}
-					r.Cond(has, "GRD-time", fmt.Sprintf("%s:neighbourhood-read#%d:%s", shortName(fi.Obj), per, nm), w.Pos(c.Pos()), "the lookup receives the query time", shortName(fi.Obj)+" reads a neighbourhood through "+nm+" without passing its atTime on: that side of the traversal sees the graph as it is now while the rest sees it as of the queried time — a time-travel query returns edges that did not exist then, or misses ones that did")
-				}
-			}
-		}
+func exprString(e ast.Expr) string { return types.ExprString(e) }
+
+func bodyIsContinue(b *ast.BlockStmt) bool {
+	if len(b.List) != 1 {
+		return false
 	}
-	if n < 4 {
-		r.Und("GRD-time", "anchor:time-travel-reads", "", fmt.Sprintf("expected ≥4 neighbourhood reads in functions that take atTime, found %d", n))
-	}
+	bs, ok := b.List[0].(*ast.BranchStmt)
+	return ok && bs.Tok == token.CONTINUE
 }
